@@ -1,7 +1,7 @@
 SPECIFICATION Spec
 CONSTANTS
   MaxSteps = 2
-  Leaves = {"bool","int","int8","int16","int32","int64","uint","uint8","uint16","uint32","uint64","uintptr","float32","float64","string","bytes","MarshalerV","MarshalerP","TextV","TextP","Time","Number","Raw","Rec","RecMap","MutualA","UnmarshalerP","TextUnmarshalerP","Empty","PtrField","Scripted"}
+  Leaves = {"bool","int","int8","int16","int32","int64","uint","uint8","uint16","uint32","uint64","uintptr","float32","float64","string","bytes","MarshalerV","MarshalerP","TextV","TextP","Time","Number","Raw","Rec","RecMap","MutualA","UnmarshalerP","TextUnmarshalerP","Empty","PtrField","Scripted","BothP","BothV"}
   Steps = {"ptr","slice","array0","array1","array2","map_s","map_i","map_t","iface","struct:plain:alone","struct:omitempty:alone","struct:string:alone","struct:omitempty:before-int","struct:plain:after-iface","struct:omitempty+string:after-ptrstr","struct:plain:before-ptrstr","embedV","embedP","embedV-shadowed","embedP-shadowed"}
 INVARIANTS TypeOK EmbedDiscipline Export
 CHECK_DEADLOCK FALSE
